@@ -27,6 +27,9 @@ func n(a sdk.AccAddress) string { return Name(a.String()) }
 // "very large" values.
 const Big = "9999999999999999999999999999.999999"
 
+// Big35 needs 35 significant digits once multiplied by 10^6.
+const Big35 = "12345678901234567890123456787.623456"
+
 // Eps is the smallest credit unit at precision 6.
 const Eps = "0.000001"
 
